@@ -103,7 +103,7 @@ func VerifC09_Project() {
 	mon := vNewMonitor("p0", "p1")
 	p0 := vConf("p0", nil)
 	b0 := &vBehav{}
-	switch verifChooseK("behaviour.p0", 4) {
+	switch verifChooseK("behaviour.p0", 5) {
 	case 0:
 		b0.codes = []int{0}
 	case 1:
@@ -112,14 +112,24 @@ func VerifC09_Project() {
 		b0.untilStop = []bool{true}
 	case 3:
 		b0.startErr = true
+	case 4:
+		p0.WorkingDir = "/verif-no-such-dir"
+		verifBind("os.Stat", vStatMissing)
+		b0.codes = []int{0}
 	}
 	w.behav["p0"] = b0
-	if verifChooseK("policy.p0", 2) == 1 {
+	switch verifChooseK("policy.p0", 3) {
+	case 1:
 		p0.RestartPolicy = types.RestartPolicyConfig{Restart: types.RestartPolicyAlways, MaxRestarts: 1}
+	case 2:
+		p0.RestartPolicy = types.RestartPolicyConfig{Restart: types.RestartPolicyExitOnFailure}
 	}
 	p1 := vConf("p1", nil)
 	if verifChooseK("edge.p1.p0", 2) == 1 {
 		p1.DependsOn["p0"] = types.ProcessDependency{Condition: types.ProcessConditionCompletedSuccessfully}
+		if verifChooseK("p1.exit_on_skipped", 2) == 1 {
+			p1.RestartPolicy.ExitOnSkipped = true
+		}
 	}
 	w.behav["p1"] = &vBehav{codes: []int{0}}
 	withStop := verifChooseK("stop.p0", 2) == 1
